@@ -96,7 +96,7 @@ func main() {
 				"distinct_outcomes":             m.Distinct["outcomes"],
 				"distinct_parser_outcomes":      m.Distinct["parser_outcomes"],
 				"max_depth":                     m.Maxes["max_depth"],
-				"rule":                          "Part 1: BFS (root 'stored': the three lists already on disk, quick depth 3 / thorough depth 4; root 'fresh': nothing downloaded yet, quick depth 2 / thorough depth 4) over histories of {forced refresh of the block side x 16 answers, forced refresh of the allow side x 16 answers (both through the refresh API handler), scheduled refresh 25 h later and 1 h later x (block answer, allow answer) pairs (through periodicallyRefreshFilters; quick: 6x6 and 4x4 representative pairs, thorough: 14x14 and every pair with one of 4 representatives), change of the local list file to F0/F1/missing/a directory, restart} on a real DNSFilter with one HTTP block list, one local-file block list and one HTTP allow list. Answers of the scripted list server: 200 L1, 200 L2, 200 same as before, 200 empty, connection error, 404, 500, 204, 206 (partial content), 200 with the body failing (io.ErrUnexpectedEOF) before the first byte / mid-line / at a line boundary / after the last line, 200 HTML page, 200 with NUL on line 1 / line 3. Histories are merged only when the dumped implementation state (list files, metadata incl. checksum and update-age class, verdicts of 13 probe names, stray files) and the model agree; after every step the stored bytes, the inode, rules_count of the status API and the CheckHost verdicts are compared with the model, and the stored file is re-parsed. non-trivial = a step in which a list that has a stored file gets a failing answer, or a list is replaced by new content. Part 2: every text over 14 line kinds x {LF, CRLF, no final newline} through rulelist.Parser (quick: <=4 lines; thorough: <=6 lines over the 13 short kinds plus <=4 lines with a 70 KB line), plus texts of <=3 lines with lines at the scanner's length limit; non-trivial = accepted text with at least one rule whose normal form differs from the input",
+				"rule":                          "Part 1: BFS (root 'stored': the three lists already on disk, quick depth 3 / thorough depth 4; root 'fresh': nothing downloaded yet, quick depth 2 / thorough depth 4) over histories of {forced refresh of the block side x 16 answers, forced refresh of the allow side x 16 answers (both through the refresh API handler), scheduled refresh 25 h later and 1 h later x (block answer, allow answer) pairs (through periodicallyRefreshFilters; quick: 6x6 and 4x4 representative pairs, thorough: 14x14 and every pair with one of 4 representatives), change of the local list file to F0/F1/missing/a directory, set_url to an address whose download fails x 5 answers, switching the HTTP block list / the allow list off through the set_url handler, switching it on again through the set_url handler x answer (quick: 4 representatives, thorough: all 16; switching on downloads the list and is judged like any refresh, except that a rewrite of unchanged content is not held against it; a list that is off keeps its file, has no rules in force and is not requested), restart (keeps which lists are off)} on a real DNSFilter with one HTTP block list, one local-file block list and one HTTP allow list. Answers of the scripted list server: 200 L1, 200 L2, 200 same as before, 200 empty, connection error, 404, 500, 204, 206 (partial content), 200 with the body failing (io.ErrUnexpectedEOF) before the first byte / mid-line / at a line boundary / after the last line, 200 HTML page, 200 with NUL on line 1 / line 3. Histories are merged only when the dumped implementation state (list files, metadata incl. checksum and update-age class, verdicts of 13 probe names, stray files) and the model agree; after every step the stored bytes, the inode, rules_count of the status API and the CheckHost verdicts are compared with the model, and the stored file is re-parsed. non-trivial = a step in which a list that has a stored file gets a failing answer, or a list is replaced by new content. The block list L1 has a title line followed by a '##' line. Part 2: every text over 14 line kinds x {LF, CRLF, no final newline} through rulelist.Parser, plus texts with lines starting with '##', '#@#' or '!#' (comments by the first-byte rule, before and after a title line; quick <=4 lines over 9 kinds, thorough <=5 lines over 12 kinds) (quick: <=4 lines; thorough: <=6 lines over the 13 short kinds plus <=4 lines with a 70 KB line), plus texts of <=3 lines with lines at the scanner's length limit; non-trivial = accepted text with at least one rule whose normal form differs from the input",
 			}
 		},
 		Assumptions: []string{
@@ -105,6 +105,7 @@ func main() {
 			"a scheduled refresh attempts a list iff its LastUpdated (read from the implementation before the step) is at least the interval old; whether HTTP lists were attempted is taken from the transport log",
 			"body faults are modelled by an io.Reader that delivers the first k bytes and then returns io.ErrUnexpectedEOF, k in {0, mid-line, line boundary, all}",
 			"update ages enter the state key as classes never/young/due; exact because steps advance the clock by 1 h or 25 h and depth x 1 h is below the 24 h interval",
+			"switching a list off is not a refresh: its file must stay byte- and inode-identical, its rules leave force, its reported rule count and checksum are not constrained while it is off; switching it on with a failing download must leave file, count and verdicts as they were (off)",
 			"after a successful refresh that replaced a list the new rules must be in force (demanded by the check's brief; the statement itself only says so for failed refreshes)",
 		},
 	})
